@@ -53,9 +53,12 @@ def conn_fp(w: ConnWorld) -> Any:
     return (c.obj(w.conn, skip=("_frame_helper",)), fingerprint.loop_canon(w.loop), len(w.sock.sent), w.conn.connection_state.name, len(w.stops))  # type: ignore[union-attr]
 
 
-def sweep_job(args: tuple[bool, int, int]) -> dict[str, Any]:
+def sweep_job(args: tuple[Any, ...]) -> dict[str, Any]:
     env.load()
-    noise, lo, hi = args
+    noise, lo, hi = args[:3]
+    from .. import world as _world
+
+    _world.DEFAULT_DEBUG[0] = len(args) > 3 and bool(args[3])
     ids = env.proto_ids()
     pb = env.pb()
     out: dict[str, Any] = {"evals": 0, "viol": [], "defined_ok": 0, "undefined_ok": 0, "bad_payload_closed": 0}
@@ -361,9 +364,12 @@ PEER = {"PR": "PingRequest", "TR": "GetTimeRequest", "DR": "DisconnectRequest", 
 ANSWER = {"PR": "PingResponse", "TR": "GetTimeResponse", "DR": "DisconnectResponse"}
 
 
-def peer_job(args: tuple[bool, tuple[str, ...], bool]) -> dict[str, Any]:
+def peer_job(args: tuple[Any, ...]) -> dict[str, Any]:
     env.load()
-    noise, seq, one_chunk = args
+    noise, seq, one_chunk = args[:3]
+    from .. import world as _world
+
+    _world.DEFAULT_DEBUG[0] = len(args) > 3 and bool(args[3])  # the same sequence with debug logging requested
     out: dict[str, Any] = {"evals": 1, "viol": []}
     w, probe = connected(noise)
     try:
@@ -390,7 +396,7 @@ def peer_job(args: tuple[bool, tuple[str, ...], bool]) -> dict[str, Any]:
         ids = env.proto_ids()
         sent = w.sent_frames()[n0:]
         got = [ids.get(t, str(t)) for t, _ in sent]
-        key = f"peer:{'noise' if noise else 'plain'}:{'+'.join(seq)}:{'one-chunk' if one_chunk else 'separate'}"
+        key = f"peer:{'noise' if noise else 'plain'}{':debug' if _world.DEFAULT_DEBUG[0] else ''}:{'+'.join(seq)}:{'one-chunk' if one_chunk else 'separate'}"
         if got != exp:
             out["viol"].append({"key": key, "clause": f"C12:peer:device sent {list(seq)}; client wrote {got}, expected {exp}", "noise": noise, "seq": list(seq), "one_chunk": one_chunk})
             return out
@@ -429,15 +435,17 @@ def run(tier: str, seed: int) -> Result:
     nproc = min(16, os.cpu_count() or 1)
     # (a)
     step = 2048
-    jobs_a = [(False, lo, min(lo + step, 65536)) for lo in range(0, 65536, step)]
+    jobs_a: list[tuple[Any, ...]] = [(False, lo, min(lo + step, 65536)) for lo in range(0, 65536, step)]
     jobs_a += [(True, lo, min(lo + step, 65536)) for lo in range(0, 65536, step)]
+    jobs_a += [(False, 0, 2048, True), (True, 0, 2048, True)]  # the defined ids and their neighbours once more with debug logging requested
     # (b)
     depth = 5 if q else 6
     jobs_b = [(depth, p, 25) for p in range(25)]
     # (c)
     alph = ("PR", "TR", "DR", "ST", "UK")
     seqs = [s for n in (1, 2, 3) for s in itertools.product(alph, repeat=n)]
-    jobs_c = [(noise, s, oc) for noise in (False, True) for s in seqs for oc in (False, True)]
+    jobs_c: list[tuple[Any, ...]] = [(noise, s, oc) for noise in (False, True) for s in seqs for oc in (False, True)]
+    jobs_c += [(noise, s, True, True) for noise in (False, True) for s in seqs if len(s) <= 2]
     jobs_b2 = [(3, p, 25) for p in range(25)]
     jobs_c2: list[tuple[bool, bool, tuple[str, ...], bool]] = []
     for noise in (False, True):
